@@ -156,6 +156,35 @@ def run(res, rng, tier, model_ok, replay=None):
                 kl = "vcd-" + mode.split(":")[0]
             cases.append({"line": line, "expect": exp, "pred": canonical(widths), "key": key, "klass": kl})
         cases += fstw_cases(rng, 500 if tier == "quick" else 10000)
+        # string values that are not valid UTF-8 (each non-ASCII byte followed by an ASCII one, so that the lossy
+        # conversion is one U+FFFD per byte); the model does not cover from_utf8_lossy: implementation + oracle only
+        lat = []
+        for _ in range(60 if tier == "quick" else 1000):
+            vals = []
+            for _ in range(rng.randint(1, 3)):
+                bs = b""
+                for _ in range(rng.randint(1, 4)):
+                    bs += bytes([rng.randint(0x80, 0xFF)]) + rng.choice([b"a", b"t", b"_", b"0"])
+                vals.append(rng.choice([b"", b"x"]) + bs)
+            seq = [rng.choice(vals) for _ in range(rng.randint(2, 8))]
+            body = b"\n#0\n"
+            exp = []
+            t = 0
+            prev = None
+            for k, v in enumerate(seq):
+                if rng.random() < 0.5:
+                    t += 1
+                    body += b"#%d\n" % t
+                body += b"s" + v + b" !\n"
+                lossy = v.decode("utf-8", errors="replace").encode("utf-8")
+                if lossy != prev:
+                    exp.append("%x:S:%s" % (t, lossy.hex()))
+                prev = lossy
+            hdr = b"$scope module t $end\n$var string 1 ! s $end\n$upscope $end\n$enddefinitions $end"
+            lat.append({"line": "vcd %s D;s;- %s %s" % (rng.choice(["st", "rd"]), hdr.hex(), body.hex()),
+                        "expect": "tt=%s s0=%s" % (",".join("%x" % i for i in range(t + 1)), ",".join(exp)),
+                        "pred": canonical({0: ("s",)}), "key": hash(body), "klass": "latin1-strings(impl-only)"})
+        vcdfam.run_both(res, lat, "c06l", False)
     vcdfam.run_both(res, cases, "c06", model_ok)
     res.samples = [c["line"][:300] for c in cases[:2]] + [cases[-1]["line"][:300]]
 
